@@ -406,3 +406,71 @@ Example read_until_ex :
   read_until 96 ex_stream = read_until 1 ex_stream /\
   read_until_abs ex_stream = (["a"; "b"; "c"; "d"; x0a]%byte, false, {| s_data := s_data ex_stream; s_pos := 5 |}).
 Proof. split; [unfold wf_stream; cbn; lia|]. repeat split; vm_compute; reflexivity. Qed.
+
+(* ------------------------------------------------------------------------------------------------ *)
+(* Every reader state reachable in a run has a well-formed stream.                                   *)
+
+Inductive reachable (orc : oracle) (chunk : nat) (data : bytes)
+  : rstate -> list bytes -> list (option pv) -> nat -> Prop :=
+| reach_init :
+    reachable orc chunk data
+              {| st_stream := {| s_data := data; s_pos := 0 |}; st_linenum := 0%Z; st_fnl := None |}
+              [GenSections.sec_main] [None] 0
+| reach_step : forall st valid encs prev r st' valid' encs' prev',
+    reachable orc chunk data st valid encs prev ->
+    iter_step orc chunk st valid encs prev = SYield r st' valid' encs' prev' ->
+    reachable orc chunk data st' valid' encs' prev'.
+
+Theorem reachable_wf : forall orc chunk data st valid encs prev,
+  0 < chunk -> reachable orc chunk data st valid encs prev -> wf_rstate st.
+Proof.
+  intros orc chunk data st valid encs prev Hc H. induction H.
+  - apply wf_initial.
+  - eapply iter_step_wf; eauto.
+Qed.
+
+(* the states reachable do not depend on the block size either *)
+Theorem reachable_chunk_indep : forall orc c1 c2 data st valid encs prev,
+  0 < c1 -> 0 < c2 -> reachable orc c1 data st valid encs prev -> reachable orc c2 data st valid encs prev.
+Proof.
+  intros orc c1 c2 data st valid encs prev H1 H2 H. induction H.
+  - constructor.
+  - econstructor; [eassumption|]. rewrite (iter_step_chunk_indep orc c2 c1) by assumption. eassumption.
+Qed.
+
+(* ------------------------------------------------------------------------------------------------ *)
+(* A concrete file: headers of different lengths, content after headers, read with several block     *)
+(* sizes (1: every header spans many blocks; 7; 96: the default, several headers and contents inside *)
+(* one block; 1000: the whole file in one block).                                                    *)
+
+Import String.StringSyntax.
+Local Open Scope string_scope.
+Local Open Scope list_scope.
+
+Definition ex_nl : bytes := [x0a].
+Definition ex_file : bytes :=
+  B "#diffx: encoding=utf-8, version=1.0" ++ ex_nl ++
+  B "#.preamble: length=6" ++ ex_nl ++
+  B "hello" ++ ex_nl ++
+  B "#.change:" ++ ex_nl ++
+  B "#..file:" ++ ex_nl ++
+  B "#...meta: format=json, length=3" ++ ex_nl ++
+  B "{}" ++ ex_nl ++
+  B "#...diff: length=10" ++ ex_nl ++
+  B "--- a" ++ ex_nl ++ B "+b" ++ ex_nl ++ ex_nl.
+Definition ex_orc : oracle := [("s"%byte :: B "{}" ++ ex_nl, LoadsOk (JObj []))].
+
+Example read_all_ex :
+  map r_payload (fst (read_all ex_orc 96 ex_file)) =
+    [PNone; PText [104; 101; 108; 108; 111; 10]%N; PNone; PNone; PMeta (JObj []);
+     PBytes (B "--- a" ++ ex_nl ++ B "+b" ++ ex_nl ++ ex_nl)] /\
+  snd (read_all ex_orc 96 ex_file) = TEnd /\
+  read_all ex_orc 1 ex_file = read_all ex_orc 96 ex_file /\
+  read_all ex_orc 7 ex_file = read_all ex_orc 96 ex_file /\
+  read_all ex_orc 1000 ex_file = read_all ex_orc 96 ex_file.
+Proof. repeat split; vm_compute; reflexivity. Qed.
+
+(* with block size 0 the same file yields no record at all: 0 < chunk is necessary *)
+Example read_all_chunk0_differs :
+  read_all ex_orc 0 ex_file = ([], TEnd) /\ read_all ex_orc 0 ex_file <> read_all ex_orc 96 ex_file.
+Proof. split; [reflexivity|vm_compute; discriminate]. Qed.
